@@ -83,7 +83,18 @@ class Recorder(object):
                 else:
                     cells = enumerate(vals, blk.address)
                 bit = t in ('c', 'd')
-                d[t] = {a - off: (bool(v) if bit else v) for a, v in cells if 0 <= a - off <= 0xFFFF}
+                if t in getattr(ctx, '_default_tables', ()):
+                    # constructor-default table (65536 zero cells): look only at the datastore addresses
+                    # any request of this run has written in ANY table of this unit (so a write that
+                    # leaks into another table is seen) and keep the cells that differ from the default
+                    dd = {}
+                    for a in ctx._touched:
+                        i = a - blk.address
+                        if 0 <= i < len(vals) and vals[i] and 0 <= a - off <= 0xFFFF:
+                            dd[a - off] = bool(vals[i]) if bit else vals[i]
+                    d[t] = dd
+                else:
+                    d[t] = {a - off: (bool(v) if bit else v) for a, v in cells if 0 <= a - off <= 0xFFFF}
             out[u] = d
         return out
 
@@ -128,6 +139,8 @@ def make_context(scn, rec):
 
         def setValues(self, fx, address, values):
             vals = list(values)
+            base = address + (0 if self.zero_mode else 1)
+            self._touched.update(range(base, base + len(vals)))
             rec.access.append((k.log('ds-set', fx, address, len(vals)), self._unit, 'set', fx, address, vals))
             self._maybe_fail('set')
             return ModbusSlaveContext.setValues(self, fx, address, values)
@@ -138,13 +151,19 @@ def make_context(scn, rec):
         layout = scn['units'][ukey]
         share = layout.get('share') or {}
         blocks = {}
+        defaults = [t for t in ('c', 'd', 'h', 'i') if layout['tables'][t]['kind'] == 'default']
         for t in ('c', 'd', 'h', 'i'):
-            if share.get(t, t) == t:
+            if share.get(t, t) == t and t not in defaults:
                 blocks[t] = _mk_block(layout['tables'][t])
         for t in ('c', 'd', 'h', 'i'):
-            blocks.setdefault(t, blocks[share.get(t, t)])
-        ctx = RecordingContext(co=blocks['c'], di=blocks['d'], hr=blocks['h'], ir=blocks['i'],
-                               zero_mode=bool(layout.get('zero_mode', False)))
+            if t not in defaults:
+                blocks.setdefault(t, blocks[share.get(t, t)])
+        kwn = {'c': 'co', 'd': 'di', 'h': 'hr', 'i': 'ir'}
+        # tables of kind "default" are simply not passed: the constructor's own default is used
+        ctx = RecordingContext(zero_mode=bool(layout.get('zero_mode', False)),
+                               **{kwn[t]: b for t, b in blocks.items()})
+        ctx._default_tables = tuple(defaults)
+        ctx._touched = set()
         ctx._unit = ukey
         ctx._calls = {}
         rec.ctx_units[id(ctx)] = ukey
